@@ -199,5 +199,57 @@ pub fn io_fail_state(_args: &[String]) -> String {
             }
         }
     }
+    // (d) handing a member to another target while the terminal fails ends in the same place as without the failure
+    for how in 0..3 {
+        let run = |fail: bool| -> Result<(bool, bool, bool), ()> {
+            let t = Failing { budget: Arc::new(AtomicUsize::new(1_000_000)) };
+            let budget = t.budget.clone();
+            let mp = MultiProgress::with_draw_target(ProgressDrawTarget::term_like(Box::new(t)));
+            let mp2 = MultiProgress::with_draw_target(ProgressDrawTarget::hidden());
+            let a = mp.add(ProgressBar::new(10));
+            let b = mp.add(ProgressBar::new(10));
+            a.tick(); b.tick();
+            if fail { budget.store(0, Ordering::SeqCst); }
+            let r = catch_unwind(AssertUnwindSafe(|| {
+                match how {
+                    0 => { a.set_draw_target(ProgressDrawTarget::hidden()); }
+                    1 => { let _ = mp2.add(a.clone()); }
+                    _ => { mp.remove(&a); }
+                }
+                budget.store(1_000_000, Ordering::SeqCst);
+                // afterwards the bar belongs where the call put it: removing it from the old MultiProgress is a no-op or fine
+                if how == 1 { mp2.remove(&a); }
+                a.inc(1); b.inc(1);
+                (a.is_hidden(), b.is_hidden(), a.position() == 1)
+            }));
+            r.map_err(|_| ())
+        };
+        let good = run(false);
+        let bad = run(true);
+        if good != bad {
+            return format!("{{\"found\": true, \"clause\": \"C18 re-targeting a member bar while the terminal fails neither panics later nor leaves the bar attached to the old target\", \"input\": {{\"call\": \"{}\", \"without_failure\": {}, \"with_failure\": {}}}, \"rerun\": \"replay io_fail_state\"}}",
+                ["a.set_draw_target(hidden)", "mp2.add(a); mp2.remove(&a)", "mp.remove(&a)"][how], crate::js(&format!("{:?}", good)), crate::js(&format!("{:?}", bad)));
+        }
+    }
+    // (e) a steady ticker that meets a failing terminal changes nothing about the bar
+    for finish in 0..2 {
+        let t = Failing { budget: Arc::new(AtomicUsize::new(1_000_000)) };
+        let budget = t.budget.clone();
+        let pb = ProgressBar::with_draw_target(Some(10), ProgressDrawTarget::term_like(Box::new(t)));
+        let pb = if finish == 1 { pb.with_finish(indicatif::ProgressFinish::WithMessage("done".into())) } else { pb };
+        pb.set_position(3);
+        pb.set_message("working");
+        budget.store(0, Ordering::SeqCst);
+        pb.enable_steady_tick(std::time::Duration::from_millis(5));
+        std::thread::sleep(std::time::Duration::from_millis(120));
+        pb.disable_steady_tick();
+        budget.store(1_000_000, Ordering::SeqCst);
+        let got = (pb.position(), pb.length(), pb.message(), pb.is_finished(), pb.is_hidden());
+        let want = (3u64, Some(10u64), "working".to_string(), false, false);
+        if got != want {
+            return format!("{{\"found\": true, \"clause\": \"C18 a steady tick on a failing terminal leaves position, length, message, finished status and target as they are\", \"input\": {{\"history\": [\"bar len 10 at position 3, message working\", \"terminal fails\", \"enable_steady_tick(5 ms) for 120 ms\", \"disable_steady_tick\"], \"expected\": {}, \"got\": {}}}, \"rerun\": \"replay io_fail_state\"}}",
+                crate::js(&format!("{:?}", want)), crate::js(&format!("{:?}", got)));
+        }
+    }
     "{\"found\": false}".to_string()
 }
